@@ -37,6 +37,16 @@ def ocean_case(rng):
         m["ridge coordinates"] = [ridge]
     f["temperature models"] = [m]
     w["features"].append(f)
+    # every third case: the model's max depth is a depth SURFACE (affine: every corner listed with the value of one affine function, so the local base at a
+    # position is that function whatever the triangulation); the plate is thinner than the surface's maximum almost everywhere
+    dloc = (lambda q, D=D: D)
+    if rng.random() < 0.35:
+        ax, ay = rng.choice([0.0, 1e-2, -7.5e-3]), rng.choice([5e-3, -1e-2, 1.25e-2])
+        dloc = (lambda q, D=D, ax=ax, ay=ay: D + ax * q[0] + ay * q[1])
+        m["max depth"] = [[dloc(c), [list(c)]] for c in f["coordinates"]]
+        f["max depth"] = 400e3
+        D = max(dloc(c) for c in f["coordinates"])
+    m["_dloc"] = dloc
     return w, gl, name, top, bot, D, ridge, m
 
 
@@ -62,14 +72,17 @@ def oracle(seed, tier):
         path = os.path.join(wdir, "c_%d.wb" % wi)
         if kind == "ocean":
             w, gl, name, top, bot, D, ridge, m = ocean_case(rng)
-            dist[name] = dist.get(name, 0) + 1
+            dloc = m.pop("_dloc")
+            surface = isinstance(m["max depth"], list)
+            dist[name + (" (max depth surface)" if surface else "")] = dist.get(name + (" (max depth surface)" if surface else ""), 0) + 1
             botf = (lambda d: gl.adiabat(d) if bot < 0 else bot)
             def bad(msg, probe=None, extra=None):
                 v = {"what": "%s: %s" % (name, msg), "world_json": w, "world": path, "probe": probe}
                 v.update(extra or {}); viol.append(v)
             # (1) depth profile at a fixed position, incl. both boundaries
             pos = [rng.uniform(-1500e3, 1500e3), rng.uniform(-1500e3, 1500e3)]
-            ds = [0.0] + sorted(rng.uniform(0, D) for _ in range(28)) + [D]
+            Dl = dloc(pos)          # the model's own bottom at this position (D is the thickness the series uses: the surface's maximum)
+            ds = [0.0] + sorted(rng.uniform(0, Dl) for _ in range(28)) + [Dl * (1 - 1e-12) if surface else Dl]
             vals, info = run(w, [(pos, d) for d in ds], path)
             if vals is None:
                 bad("library failed %s" % (info,)); continue
@@ -86,11 +99,12 @@ def oracle(seed, tier):
                 bad("temperature falls with depth: %.12g at %.8g m, %.12g at %.8g m (age %.4g yr)" % (vals[k], ds[k], vals[k + 1], ds[k + 1], age_s / YEAR), probe, {"cmd": info[k + 2]})
             if abs(vals[0] - top) > 1e-9 * 2000:
                 bad("top temperature %.9g not attained at the model's top: %.12g" % (top, vals[0]), probe, {"cmd": info[1]})
-            if name != "half space model" and abs(vals[-1] - botf(D)) > 1e-9 * 2000:
-                bad("bottom temperature %.9g not attained at the model's bottom (depth %.6g): %.12g" % (botf(D), D, vals[-1]), probe, {"cmd": info[-1]})
+            if name != "half space model" and abs(vals[-1] - botf(Dl)) > 1e-9 * 2000 + (1e-6 if surface else 0):
+                bad("bottom temperature %.9g not attained at the model's bottom (depth %.6g%s): %.12g" % (botf(Dl), Dl, ", local value of the max depth surface whose maximum is %.6g" % D if surface else "", vals[-1]),
+                    probe or ("plate-thickness-is-surface-maximum" if surface and Dl < D * (1 - 1e-9) else None), {"cmd": info[-1]})
             # (2) age profile at fixed depth: moving away from the ridge along +x from the closest point
             if ridge is not None:
-                d0 = rng.uniform(2e3, 0.9 * D)
+                d0 = rng.uniform(2e3, 0.9 * min(dloc(c) for c in w["features"][0]["coordinates"]))
                 y0 = rng.uniform(-1000e3, 1000e3)
                 xs = sorted(rng.uniform(-1900e3, 1900e3) for _ in range(25))
                 pts = sorted(((ridge_distance(ridge, [x, y0]), x) for x in xs))
@@ -193,6 +207,22 @@ def oracle(seed, tier):
 def correspondence(seed, tier):
     n = budget(tier, 25, 300)
     rs = [corr.run_corr(seed * 1000 + 200 + k, "C20_%d" % k, n, 25, {"with_random": False, "with_lines": True, "allow": ["oceanic plate", "oceanic plate", "continental plate", "mantle layer", "subducting plate", "fault"], "slab_models": 0.5}) for k in range(budget(tier, 1, 3))]
+    # the structured cooling-model worlds of the oracle (other seed; every third with the model's max depth a depth surface), model vs library bit for bit
+    rng = random.Random(seed * 9176 + 201)
+    wdir = proto.workdir("C20_struct")
+    lines = []
+    for wi in range(budget(tier, 12, 120)):
+        w, gl, name, top, bot, D, ridge, m = ocean_case(rng)
+        dloc = m.pop("_dloc")
+        path = os.path.join(wdir, "s_%d.wb" % wi)
+        json.dump(w, open(path, "w"))
+        lines.append("world w %s - aux %s.aux" % (path, path))
+        for _ in range(12):
+            pos = [rng.uniform(-1900e3, 1900e3), rng.uniform(-1900e3, 1900e3)]
+            d = rng.uniform(0, 1.05 * dloc(pos))
+            lines.append(q3("w", [pos[0], pos[1], 1000e3 - d], d, [(1, 0, 0)]))
+        lines.append("free w")
+    rs.append(corr_lines(lines))
     return summarize_corr(rs)
 
 
